@@ -35,6 +35,12 @@ impl Out {
     }
 }
 
+/// the `FMT` operation (independent format decoder in the Lean spec) is emitted only when the
+/// driver announces it (`PGH_FMT=1`)
+pub fn fmt_enabled() -> bool {
+    std::env::var("PGH_FMT").map_or(false, |v| v == "1")
+}
+
 pub fn thorough(tier: &str) -> bool {
     tier == "thorough"
 }
@@ -859,7 +865,9 @@ pub fn gen_c09(rng: &mut Rng, tier: &str, out: &mut Out) {
         let bytes = crate::proto::cur::write_cache(&text);
         out.d(format!("BUF {}", hx(&bytes)));
         out.d("BTEST".into());
-        out.d(format!("FMT {}", hx(&bytes)));
+        if fmt_enabled() {
+            out.d(format!("FMT {}", hx(&bytes)));
+        }
     }
     for (name, text) in small_corpus() {
         let dom = is_representable(&text);
@@ -868,7 +876,9 @@ pub fn gen_c09(rng: &mut Rng, tier: &str, out: &mut Out) {
         let bytes = crate::proto::cur::write_cache(&text);
         out.t(dom, format!("BUF {}", hx(&bytes)));
         out.t(dom, "BTEST".into());
-        out.t(dom, format!("FMT {}", hx(&bytes)));
+        if fmt_enabled() {
+            out.t(dom, format!("FMT {}", hx(&bytes)));
+        }
         out.count(&format!("corpus:{}", name));
     }
 }
